@@ -968,9 +968,8 @@ func (sec *stdSecHandler) computeO(paddedUserPwd, paddedOwnerPwd []byte) []byte 
 	if sec.R >= 3 {
 		for range 50 {
 			h.Reset()
-			// The spec does not mention the truncation, but this seems to be
-			// required anyway.
-			h.Write(sum[:sec.keyBytes])
+			// unlike in algorithm 2, the whole MD5 output is hashed again
+			h.Write(sum)
 			sum = h.Sum(sum[:0])
 		}
 	}
@@ -1056,9 +1055,8 @@ func (sec *stdSecHandler) authenticateOwner(paddedOwnerPwd []byte) error {
 	if sec.R >= 3 {
 		for range 50 {
 			h.Reset()
-			// The spec does not mention the truncation, but this seems to be
-			// required anyway.
-			h.Write(sum[:sec.keyBytes])
+			// unlike in algorithm 2, the whole MD5 output is hashed again
+			h.Write(sum)
 			sum = h.Sum(sum[:0])
 		}
 	}
